@@ -130,9 +130,9 @@ theorem engine_C11_int_partial (fx : Fixes) (hfx : Repaired fx) (sk : Sink) (m :
 def exFmt : Str := ['a', '%', '+', '0', '5', 'd', '|', '%', '-', '4', '.', '1', 's', '|', '%', '#', 'x', '%', '%']
 def exArgs : List Arg := [.int 42, .str (some ['x', 'y']), .int 255]
 def exText : Str := ['a', '+', '0', '0', '4', '2', '|', 'x', ' ', ' ', ' ', '|', '0', 'x', 'f', 'f', '%']
-theorem ex_spec : Spec.printf exFmt exArgs = some exText := by decide +kernel
-theorem ex_ok : fmtOK exFmt.length exFmt exArgs = true := by decide +kernel
-theorem ex_prescan : SafeC.Fmt.prescan exFmt = false := by decide
+example : Spec.printf exFmt exArgs = some exText := by decide +kernel
+example : fmtOK exFmt.length exFmt exArgs = true := by decide +kernel
+example : SafeC.Fmt.prescan exFmt = false := by decide
 example : (sprintf_s current true 20 (List.replicate 20 'x') exFmt exArgs).ret = some 17 := by decide
 
 /-- PARTIAL (`engine_C11_int` of DESIGN.md §4, `vsnprintf_s` = `snprintf_s` = [code as found] `sprintf_s`).  Repaired engine
